@@ -148,7 +148,7 @@ func checkC05(w *Worker) {
 		base, ok := baseCache[key]
 		if !ok {
 			verifshim.PermHook = nil
-			base = runApp(cs)
+			base = runAppDefaultSchedule(w, cs)
 			baseCache[key] = base
 		} else {
 			logRun(cs, base)
@@ -228,7 +228,7 @@ func checkC05(w *Worker) {
 // On a tree without goroutines in its commands this is one execution per case.
 func c05Schedules(w *Worker, inputs []c05Input) {
 	baseCache := map[string]AppRun{}
-	w.Explore("schedules", ExploreOpts{ShardDepth: 2}, func(x *Exec) {
+	w.Explore("schedules", ExploreOpts{ShardDepth: 2, Budgets: map[string]int{"appsched": 1 << 30}}, func(x *Exec) {
 		x.NoConfirm = true
 		ii := x.Choose(len(inputs), "input:input")
 		ci := x.Choose(len(c05Cmds), "input:command")
@@ -239,35 +239,31 @@ func c05Schedules(w *Worker, inputs []c05Input) {
 		key := fmt.Sprintf("%d|%d", ii, ci)
 		base, ok := baseCache[key]
 		if !ok {
-			base = runApp(c)
+			base = runAppDefaultSchedule(w, c)
 			baseCache[key] = base
 		} else {
 			logRun(c, base)
 		}
-		s := NewSched(x)
-		var r AppRun
-		finished := false
-		s.Go("main", func() {
-			r = runApp(c)
-			finished = true
-		})
-		s.Run()
-		if s.Stalled {
-			// a goroutine of the command blocks on something the scheduler does not intercept: no verdict for this case
-			x.Case("skip: not schedulable "+key, false)
-			x.Note("schedule_exploration_abandoned", 1)
-			return
+		// (runApp runs the command as thread "main" of a scheduler bound to this execution; here its choice points are
+		// not bounded)
+		r := runApp(c)
+		sched := []string{}
+		for _, cp := range x.trace {
+			if cp.Class == "appsched" {
+				sched = append(sched, fmt.Sprint(cp.C))
+			}
 		}
-		x.Obs(r.Key(), fmt.Sprint(finished, s.Deadlock))
-		x.Case(fmt.Sprint(key, s.Trace), len(s.Trace) > 0)
-		x.Note("scheduler_transitions", int64(len(s.Trace)))
+		x.Obs(r.Key())
+		x.Case(fmt.Sprint(key, sched), len(sched) > 0)
+		x.Note("scheduler_choice_points", int64(len(sched)))
 		cname := strings.Join(c05Cmds[ci], " ")
-		rep := map[string]interface{}{"cmd": c.shell(), "schedule": s.Trace, "plain_run": base.String(), "this_schedule": r.String()}
+		s := struct{ Trace []string }{sched}
+		rep := map[string]interface{}{"cmd": c.shell(), "schedule_choices": sched, "plain_run": base.String(), "this_schedule": r.String()}
 		switch {
-		case len(s.Panics) > 0:
-			x.Violate("C05|"+cname+"|panic-under-a-schedule", fmt.Sprintf("input %s\n`%s`\nschedule %v: %v", in.Name, c.shell(), s.Trace, s.Panics), rep)
-		case !finished:
-			x.Violate("C05|"+cname+"|does-not-terminate-under-a-schedule", fmt.Sprintf("input %s\n`%s`\nschedule %v: the command does not return (%v)", in.Name, c.shell(), s.Trace, s.ParkedAtEnd()), rep)
+		case r.Panic != "" && base.Panic == "":
+			x.Violate("C05|"+cname+"|panic-under-a-schedule", fmt.Sprintf("input %s\n`%s`\nschedule choices %v: %s", in.Name, c.shell(), sched, r.Panic), rep)
+		case strings.HasPrefix(r.Err, "VERIF: the command does not return"):
+			x.Violate("C05|"+cname+"|does-not-terminate-under-a-schedule", fmt.Sprintf("input %s\n`%s`\n%s", in.Name, c.shell(), r.Err), rep)
 		case r.Key() != base.Key():
 			kind := "output-depends-on-the-schedule"
 			if r.Failed != base.Failed {
@@ -286,4 +282,13 @@ func siteFile(site string) string {
 		site = site[i+1:]
 	}
 	return site
+}
+
+// runAppDefaultSchedule: one application run under the default schedule (every scheduler choice 0), without adding
+// choice points to the execution that asks for it - the reference run the other runs of a case are compared with.
+func runAppDefaultSchedule(w *Worker, c appCase) AppRun {
+	saved := curExec
+	curExec = &Exec{w: w, dev: map[string]int{}, budget: map[string]int{"appsched": 0}, explore: "reference-run"}
+	defer func() { curExec = saved }()
+	return runApp(c)
 }
